@@ -123,6 +123,26 @@ class VM {
    * @return true if the end has been reached
    */
   bool isDone();
+
+#ifdef THEO_VERIF
+  /* read-only accessors for verification harnesses; they expose hidden state,
+   * they never change it */
+  struct VerifFrame {
+    WordIndex data_start;
+    WordIndex seg_size;
+    RegisterIndex ret_target;
+    ProgramIndex ret_addr;
+    StackMapIndex debug_info;
+  };
+  ProgramIndex verifInstructionPointer() const { return instruction_pointer; }
+  const std::vector<Word>& verifData() const { return data; }
+  const Program& verifProgram() const { return code; }
+  std::size_t verifDepth() const { return stack.size(); }
+  VerifFrame verifFrame(std::size_t k) const {
+    const Activation& a = stack[k];
+    return {a.data_start, a.seg_size, a.ret_target, a.ret_addr, a.debug_info};
+  }
+#endif
 };
 
 }  // namespace Theo
